@@ -370,13 +370,42 @@ Proof.
     + apply limbs_ok_app. split; [assumption|constructor; [assumption|constructor]].
 Qed.
 
-(* add_assign_internal is correct outside the lost-carry class *)
+(* add_assign_internal (current code: the final carry is stored at limb n) *)
 Lemma aai_spec : forall self o d s,
-  wf self = true -> wf o = true -> d < W -> aai_known self o d s = false ->
+  wf self = true -> wf o = true -> d < W ->
   wf (add_assign_internal self o d s) = true /\
   val (add_assign_internal self o d s) = val self + d * val o * W ^ N.of_nat s.
 Proof.
-  intros self o d s Hs Ho Hd Hk. unfold add_assign_internal.
+  intros self o d s Hs Ho Hd. unfold add_assign_internal.
+  set (n := Nat.max (value_len self) (value_len o + s)).
+  destruct (aai_loop n 0 self o d s 0) as [self' c'] eqn:E.
+  destruct (aai_loop_spec n 0 self o d s 0 self' c' E Hs Ho Hd W_pos)
+    as (Hw & Hc' & Hval & _ & Hlen & _ & _).
+  cbn [Nat.add shval] in *. change (N.of_nat 0) with 0 in Hval. rewrite N.pow_0_r in Hval.
+  rewrite (lowval_val self n) in Hval by lia.
+  rewrite (shval_val o s n) in Hval by lia.
+  rewrite (lowval_val self' n) in Hval by lia.
+  destruct (N.eqb_spec c' 0) as [Ec|Ec].
+  - split; [assumption|]. subst c'. lia.
+  - split; [apply wf_set; assumption|].
+    pose proof (val_set self' n c') as Vs. rewrite get_beyond in Vs by lia. lia.
+Qed.
+
+Lemma add_spec : forall a b, wf a = true -> wf b = true ->
+  wf (add a b) = true /\ val (add a b) = val a + val b.
+Proof.
+  intros a b Ha Hb. unfold add.
+  destruct (aai_spec a b 1 0 Ha Hb W_gt1) as [H1 H2]. split; [assumption|].
+  rewrite H2. change (N.of_nat 0) with 0. rewrite N.pow_0_r. lia.
+Qed.
+
+(* the OLD add_assign_internal (before fcf264e) is correct outside the lost-carry class *)
+Lemma aai_old_spec : forall self o d s,
+  wf self = true -> wf o = true -> d < W -> aai_known self o d s = false ->
+  wf (add_assign_internal_old self o d s) = true /\
+  val (add_assign_internal_old self o d s) = val self + d * val o * W ^ N.of_nat s.
+Proof.
+  intros self o d s Hs Ho Hd Hk. unfold add_assign_internal_old.
   set (n := Nat.max (value_len self) (value_len o + s)).
   destruct (aai_loop n 0 self o d s 0) as [self' c'] eqn:E.
   destruct (aai_loop_spec n 0 self o d s 0 self' c' E Hs Ho Hd W_pos)
@@ -413,12 +442,12 @@ Proof.
       cbn [val] in Hval. replace (length v') with n by lia. lia.
 Qed.
 
-Lemma add_spec_except_known : forall a b,
+Lemma add_old_spec_except_known : forall a b,
   wf a = true -> wf b = true -> add_known a b = false ->
-  wf (add a b) = true /\ val (add a b) = val a + val b.
+  wf (add_old a b) = true /\ val (add_old a b) = val a + val b.
 Proof.
-  intros a b Ha Hb Hk. unfold add.
-  destruct (aai_spec a b 1 0 Ha Hb W_gt1 Hk) as [H1 H2]. split; [assumption|].
+  intros a b Ha Hb Hk. unfold add_old.
+  destruct (aai_old_spec a b 1 0 Ha Hb W_gt1 Hk) as [H1 H2]. split; [assumption|].
   rewrite H2. change (N.of_nat 0) with 0. rewrite N.pow_0_r. lia.
 Qed.
 
@@ -427,9 +456,10 @@ Lemma add_known_large : forall v b, add_known (Large v) b = false.
 Proof. reflexivity. Qed.
 
 (* the defect: 2^64-1 + (2^128 - 2^64 + 1) = 2^64 instead of 2^128 *)
-Lemma add_spec_refuted_witness :
+Lemma add_old_refuted_witness :
   let a := Small (W - 1) in let b := Large [1; W - 1] in
-  wf a = true /\ wf b = true /\ val (add a b) <> val a + val b /\ add_known a b = true.
+  wf a = true /\ wf b = true /\ val (add_old a b) <> val a + val b /\ add_known a b = true /\
+  val (add a b) = val a + val b.
 Proof. vm_compute. repeat split; congruence. Qed.
 
 (* ------------------------------------------------------------------ *)
@@ -786,34 +816,15 @@ Qed.
 (* ------------------------------------------------------------------ *)
 (* mul *)
 
-Lemma aai_loop_large : forall cnt i v o d s c,
-  exists v', fst (aai_loop cnt i (Large v) o d s c) = Large v'.
+Lemma mul_loop_spec : forall cnt i acc s o, wf acc = true -> wf s = true -> wf o = true ->
+  wf (mul_loop cnt i acc s o) = true /\
+  val (mul_loop cnt i acc s o) + val s * lowval o i = val acc + val s * lowval o (i + cnt).
 Proof.
-  induction cnt as [|cnt IH]; intros i v o d s c; cbn [aai_loop].
-  - cbn [fst]. eauto.
-  - cbn [set]. apply IH.
-Qed.
-
-Lemma aai_large : forall v o d s, exists v', add_assign_internal (Large v) o d s = Large v'.
-Proof.
-  intros v o d s. unfold add_assign_internal.
-  destruct (aai_loop_large (Nat.max (value_len (Large v)) (value_len o + s)) 0 v o d s 0) as [v' E].
-  destruct (aai_loop _ 0 (Large v) o d s 0) as [self' c']. cbn [fst] in E. subst self'.
-  unfold value_push. destruct (c' =? 0); cbn [make_large]; eauto.
-Qed.
-
-Lemma mul_loop_spec : forall cnt i v s o, wf (Large v) = true -> wf s = true -> wf o = true ->
-  wf (mul_loop cnt i (Large v) s o) = true /\
-  val (mul_loop cnt i (Large v) s o) + val s * lowval o i = lval v + val s * lowval o (i + cnt).
-Proof.
-  induction cnt as [|cnt IH]; intros i v s o Hv Hs Ho.
-  - cbn [mul_loop]. rewrite Nat.add_0_r. split; [assumption|]. cbn [val]. lia.
+  induction cnt as [|cnt IH]; intros i acc s o Hv Hs Ho.
+  - cbn [mul_loop]. rewrite Nat.add_0_r. split; [assumption|]. lia.
   - cbn [mul_loop].
-    destruct (aai_large v s (get o i) i) as [v' E]. rewrite E.
-    assert (Hk : aai_known (Large v) s (get o i) i = false) by reflexivity.
-    destruct (aai_spec (Large v) s (get o i) i Hv Hs (get_lt o i Ho) Hk) as [A1 A2].
-    rewrite E in A1, A2. cbn [val] in A2.
-    destruct (IH (S i) v' s o A1 Hs Ho) as [I1 I2].
+    destruct (aai_spec acc s (get o i) i Hv Hs (get_lt o i Ho)) as [A1 A2].
+    destruct (IH (S i) _ s o A1 Hs Ho) as [I1 I2].
     split; [assumption|].
     replace (S i + cnt)%nat with (i + S cnt)%nat in I2 by lia.
     cbn [lowval] in I2. rewrite A2 in I2. lia.
@@ -827,8 +838,8 @@ Proof.
   destruct (N.eqb_spec (val b) 0) as [Zb|Zb]; [cbn [orb val]; split; [reflexivity|lia]|].
   cbn [orb].
   assert (H0 : wf (Large [0]) = true) by reflexivity.
-  destruct (mul_loop_spec (value_len b) 0 [0] a b H0 Ha Hb) as [M1 M2].
-  split; [assumption|]. cbn [lowval lval Nat.add] in M2.
+  destruct (mul_loop_spec (value_len b) 0 (Large [0]) a b H0 Ha Hb) as [M1 M2].
+  split; [assumption|]. cbn [lowval val lval Nat.add] in M2.
   rewrite lowval_val in M2 by lia. lia.
 Qed.
 
@@ -873,16 +884,16 @@ Proof.
     rewrite P2. cbn [val]. lia.
 Qed.
 
-(* pow, outside the leading-zero-limb class *)
-Lemma pow_spec_except_known : forall a b, wf a = true -> wf b = true -> pow_known a b = false ->
-  match pow a b with
+(* the OLD pow (before 2c2d128), outside the leading-zero-limb class *)
+Lemma pow_old_spec_except_known : forall a b, wf a = true -> wf b = true -> pow_known a b = false ->
+  match pow_old a b with
   | Ok r => wf r = true /\ val r = val a ^ val b /\ ~ (val a = 0 /\ val b = 0)
   | Err EZeroPowZero => val a = 0 /\ val b = 0
   | Err EExpTooLarge => W <= val b
   | _ => False
   end.
 Proof.
-  intros a b Ha Hb Hk. unfold pow, pow_known in *. rewrite !is_zero_spec in *.
+  intros a b Ha Hb Hk. unfold pow_old, pow_known in *. rewrite !is_zero_spec in *.
   destruct (N.eqb_spec (val a) 0) as [Za|Za]; destruct (N.eqb_spec (val b) 0) as [Zb|Zb]; cbn [andb negb] in *.
   - auto.
   - destruct (Nat.ltb_spec 1 (value_len b)) as [L|L].
@@ -901,9 +912,10 @@ Proof.
 Qed.
 
 (* the defect: 2^[5;0] is refused although the exponent is 5 *)
-Lemma pow_spec_refuted_witness :
+Lemma pow_old_refuted_witness :
   let a := Small 2 in let b := Large [5; 0] in
-  wf a = true /\ wf b = true /\ val b < W /\ pow a b = Err EExpTooLarge /\ pow_known a b = true.
+  wf a = true /\ wf b = true /\ val b < W /\ pow_old a b = Err EExpTooLarge /\ pow_known a b = true /\
+  pow a b = Ok (Small 32).
 Proof. vm_compute. repeat split; congruence. Qed.
 
 (* ------------------------------------------------------------------ *)
@@ -931,6 +943,62 @@ Proof.
   change (N.of_nat 0) with 0 in Ht. rewrite N.pow_0_r in Ht.
   pose proof (get_lt a 0 Ha). pose proof W_pos.
   apply (N.mod_unique _ W t); lia.
+Qed.
+
+(* significant_len *)
+Lemma last_nz_spec : forall v, limbs_ok v ->
+  match last_nz v with
+  | None => lval v = 0
+  | Some i => W ^ N.of_nat i <= lval v /\ lval v < W ^ N.of_nat (S i)
+  end.
+Proof.
+  induction v as [|x r IH]; intro H.
+  - reflexivity.
+  - inversion H as [|? ? Hx Hr]; subst. specialize (IH Hr). cbn [last_nz lval].
+    destruct (last_nz r) as [i|].
+    + destruct IH as [I1 I2]. rewrite !Wpow_S in *. pose proof W_pos. split; nia.
+    + destruct (N.eqb_spec x 0).
+      * subst. lia.
+      * change (N.of_nat 0) with 0. change (N.of_nat 1) with 1. rewrite N.pow_0_r, N.pow_1_r. lia.
+Qed.
+
+Lemma significant_len_spec : forall b, wf b = true ->
+  if Nat.ltb 1 (significant_len b) then W <= val b else get b 0 = val b.
+Proof.
+  intros [n|v] Hb.
+  - cbn. reflexivity.
+  - pose proof Hb as Hb'. apply wf_large in Hb'. destruct Hb' as [_ Hok].
+    pose proof (last_nz_spec v Hok) as L. pose proof (get0_mod (Large v) Hb) as G.
+    cbn [significant_len val] in *. pose proof W_pos.
+    destruct (last_nz v) as [[|i]|].
+    + change (Nat.ltb 1 1) with false. cbv iota.
+      change (N.of_nat 0) with 0 in L. change (N.of_nat 1) with 1 in L. rewrite N.pow_1_r in L.
+      rewrite G. apply N.mod_small. lia.
+    + replace (Nat.ltb 1 (S (S i))) with true by (symmetry; apply Nat.ltb_lt; lia).
+      destruct L as [L1 _]. rewrite Wpow_S in L1. pose proof (Wpow_pos (N.of_nat i)). nia.
+    + change (Nat.ltb 1 1) with false. cbv iota. rewrite G, L. apply N.mod_0_l. lia.
+Qed.
+
+(* pow (current code) *)
+Lemma pow_spec : forall a b, wf a = true -> wf b = true ->
+  match pow a b with
+  | Ok r => wf r = true /\ val r = val a ^ val b /\ ~ (val a = 0 /\ val b = 0)
+  | Err EZeroPowZero => val a = 0 /\ val b = 0
+  | Err EExpTooLarge => W <= val b
+  | _ => False
+  end.
+Proof.
+  intros a b Ha Hb. unfold pow. rewrite !is_zero_spec.
+  pose proof (significant_len_spec b Hb) as Sg.
+  destruct (N.eqb_spec (val a) 0) as [Za|Za]; destruct (N.eqb_spec (val b) 0) as [Zb|Zb]; cbn [andb].
+  - auto.
+  - destruct (Nat.ltb 1 (significant_len b)); [assumption|].
+    destruct (pow_internal_spec a (get b 0) Ha) as [P1 P2].
+    split; [assumption|]. split; [rewrite P2, Sg; reflexivity|lia].
+  - split; [reflexivity|]. split; [|lia]. rewrite Zb, N.pow_0_r. reflexivity.
+  - destruct (Nat.ltb 1 (significant_len b)); [assumption|].
+    destruct (pow_internal_spec a (get b 0) Ha) as [P1 P2].
+    split; [assumption|]. split; [rewrite P2, Sg; reflexivity|lia].
 Qed.
 
 Definition pw (i j : nat) : N := W ^ N.of_nat i * 2 ^ N.of_nat j.
